@@ -9,6 +9,10 @@ ALL = ["C%02d" % i for i in range(1, 21)]
 
 # id -> (level, technique, text, note, design_ref)
 CHECKS = {
+    "C01": ("model_checking",
+            "TLA+ specs RtmpSession.tla (message-level session, both directions, handshake) and RtmpChunk.tla (chunk-level refinement) model-checked by TLC; every TLC behaviour replayed into two real rtmp.Protocol endpoints with state comparison after each step",
+            "TLC checks on the specification that a session never desynchronises and delivers exactly what was sent for every history of Set Chunk Size announcements and boundary lengths (NoDesync, PrefixOk, InFollowsOut, AllDelivered, AppendOnly), shows the invariant is sensitive (deviation run), and every finished behaviour TLC found is executed by the real code after the real handshake under several read segmentations, comparing each delivered message and the projected chunk sizes with the specification",
+            "trusts TLC, the transport/replayer and the verif export shim; payloads are patterns; bounds per cfg (<= 4 writes exhaustive, simulation beyond)", "5/C01"),
     "C12": ("model_checking",
             "TLA+ spec Avc.tla (TLC: round-trip/reserved-bit invariants) + TLC-enumerated cases replayed into avc package, ISO layout from the spec as oracle",
             "TLC exhaustively checks the AVC container spec (records, samples, NAL units) for self-consistency on small values, enumerates the boundary value matrix, and every enumerated value is replayed into the real marshal/unmarshal code with the spec's byte layout as the independent oracle",
